@@ -18,6 +18,7 @@ type allocMon struct {
 	threshold *Term // bytes; request sizes above it are candidate violations
 	total     *Term // running sum of requested bytes (symbolic part + constants)
 	count     int
+	fixed     int
 	maxConst  int
 }
 
@@ -56,6 +57,16 @@ func (ip *Interp) noteAlloc(site string, size *Term) {
 	}
 	ip.ex.Assert(ts.Cmp(OpUle, size, m.threshold), m.label)
 	m.total = ip.ts.Bin(OpAdd, m.total, size)
+}
+
+// noteFixedAlloc counts a fixed-size heap allocation instruction (new, map, closure) as a
+// ghost unit of 48 bytes.  Whether it exists at run time is the compiler's escape analysis'
+// business, so this only feeds the growth-candidate finder; native TotalAlloc decides.
+func (ip *Interp) noteFixedAlloc() {
+	if ip.alloc.active {
+		ip.alloc.fixed++
+		ip.alloc.total = ip.ts.Bin(OpAdd, ip.alloc.total, Const(64, 48))
+	}
 }
 
 func (ip *Interp) approxLen(v Value) int {
